@@ -233,6 +233,7 @@ def check(chk):
     _show_events(chk, repo)
     _token_cache(chk, repo)
     _replace_or_advance(chk, repo)
+    _plumbing(chk, repo)
 
     # ------------------------------------------------------------ FLOW-8
     lp = repo.cls(LP, "LightPlayer")
@@ -482,6 +483,137 @@ def _replace_or_advance(chk, repo):
            text="update applies values")
 
 
+EV_NAMES = ["events_when_played", "events_when_stopped", "events_when_looped", "events_when_paused", "events_when_resumed", "events_when_advanced",
+            "events_when_stepped_back", "events_when_updated", "events_when_completed"]
+CFG_NAMES = ["priority", "speed", "loops", "sync_ms", "manual_advance", "show_tokens"] + EV_NAMES
+
+
+def _plumbing(chk, repo):
+    """FWD-17: what the caller asked for (speed, loops, start step, sync, tokens, priority, the nine event lists, start time and the two
+    callbacks) reaches the RunningShow under the same name on every route: Show.play, ShowController.play_show_with_config /
+    replace_or_advance_show, ShowPlayer._play / _queue.  These are long positional calls: two neighbours swapped type-check and run.
+    REPL-17: a replaced show is stopped (now, or by the new show's start callback) on every path that starts its successor.
+    TABLE-17: the show player's action table maps each action to its own method, and each instance action calls that method of the
+    instance stored under the key (stop also forgets the instance)."""
+    from sa.helpers import forwarded, bind_call
+    SC = "mpf/core/show_controller.py"
+    SP = "mpf/config_players/show_player.py"
+    play = repo.func(SH, "Show.play")
+    pwc = repo.func(SH, "Show.play_with_config")
+    csc = repo.func(SC, "ShowController.create_show_config")
+    roa = repo.func(SC, "ShowController.replace_or_advance_show")
+    pswc = repo.func(SC, "ShowController.play_show_with_config")
+    rinit = repo.func(SH, "RunningShow.__init__")
+    sp_play = repo.func(SP, "ShowPlayer._play")
+    sp_queue = repo.func(SP, "ShowPlayer._queue")
+    chk.analysed(play, pwc, csc, roa, pswc, rinit, sp_play, sp_queue)
+
+    def one(f, name, recv=None):
+        cs = [c for c in f.calls() if call_attr(c) == name and (recv is None or src(c.func.value).endswith(recv))]
+        chk.need(len(cs) == 1, "FWD-17", "%s calls %s once" % (f.qualname, name), f)
+        return cs[0]
+    forwarded(chk, "FWD-17", play, one(play, "create_show_config"), csc, same=CFG_NAMES, mapping={"name": {"self.name"}}, require_all=True)
+    forwarded(chk, "FWD-17", play, one(play, "play_with_config"), pwc, same=["show_config", "start_time", "start_running", "start_callback", "start_step"],
+              mapping={"stop_callback": {"callback"}}, require_all=True)
+    rs = [c for c in pwc.calls() if isinstance(c.func, ast.Name) and c.func.id == "RunningShow"]
+    chk.need(len(rs) == 1, "FWD-17", "play_with_config creates the RunningShow", pwc)
+    forwarded(chk, "FWD-17", pwc, rs[0], rinit, same=["machine", "start_time", "start_running", "start_callback", "show_config"],
+              mapping={"show": {"self"}, "callback": {"stop_callback"}, "start_step": {"int(start_step)", "start_step"}}, require_all=True)
+    # RunningShow.__init__ stores each under its own name
+    for a in ("show", "show_config", "callback", "start_step", "start_running", "start_callback"):
+        st = [x for x in walk_local(rinit.node) if isinstance(x, ast.Assign) and src(x.targets[0]) == "self." + a]
+        chk.ob("FWD-17", "RunningShow keeps `%s` under its own name" % a, len(st) == 1 and src(st[0].value) == a, rinit.where(st[0]) if st else rinit.where(),
+               detail=src(st[0].value) if st else "", construct=rinit.ident, text="RunningShow.__init__ " + a)
+    st = [x for x in walk_local(rinit.node) if isinstance(x, ast.Assign) and src(x.targets[0]) == "self.next_step_time"]
+    chk.ob("FWD-17", "the first step is due at the requested start time", len(st) == 1 and src(st[0].value) == "start_time", rinit.where(), construct=rinit.ident,
+           text="RunningShow.__init__ start_time")
+    # the record: i-th field built from the parameter of that name
+    fields = None
+    for x in repo.mod(SH).tree.body:
+        if isinstance(x, ast.Assign) and src(x.targets[0]) == "ShowConfig" and isinstance(x.value, ast.Call) and len(x.value.args) == 2:
+            fields = const_value(x.value.args[1])
+    chk.need(fields and list(fields) == ["name"] + CFG_NAMES, "FWD-17", "ShowConfig fields as the rules name them", csc)
+    mk = [c for c in csc.calls() if isinstance(c.func, ast.Name) and c.func.id == "ShowConfig"]
+    chk.need(len(mk) == 1 and not mk[0].keywords and len(mk[0].args) == len(fields), "FWD-17", "create_show_config builds the record positionally", csc)
+    for fld, a in zip(fields, mk[0].args):
+        names = {n.id for n in ast.walk(a) if isinstance(n, ast.Name)} - {"int", "float", "bool", "str"}
+        chk.ob("FWD-17", "ShowConfig.%s is built from the parameter `%s`" % (fld, fld), names == {fld}, csc.where(a), detail=src(a), construct=csc.ident,
+               text="ShowConfig field " + fld)
+    forwarded(chk, "FWD-17", roa, one(roa, "play_with_config"), pwc, same=["start_time", "start_running", "stop_callback", "start_callback"],
+              mapping={"show_config": {"config"}, "start_step": {"start_step if start_step else 1", "start_step or 1"}}, require_all=True)
+    forwarded(chk, "FWD-17", pswc, one(pswc, "play"), play, same=["priority", "speed", "start_step", "loops", "sync_ms", "manual_advance", "show_tokens",
+                                                                  "start_time"], require_all=True)
+    for f in (sp_play, sp_queue):
+        forwarded(chk, "FWD-17", f, one(f, "create_show_config"), csc, same=CFG_NAMES, mapping={"name": {"show"}}, require_all=True)
+    forwarded(chk, "FWD-17", sp_play, one(sp_play, "replace_or_advance_show"), roa, same=["start_step", "start_time", "start_running", "stop_callback"],
+              mapping={"old_instance": {"previous_show"}, "config": {"show_config"}}, require_all=True)
+    forwarded(chk, "FWD-17", sp_queue, one(sp_queue, "enqueue_show"), repo.func("mpf/devices/show_queue.py", "ShowQueue.enqueue_show"),
+              mapping={"show_config": {"show_config"}, "start_step": {"start_step"}})
+    # local values handed on are the evaluated settings of the same name
+    for f in (sp_play, sp_queue):
+        for loc in ("start_step", "speed") + (("start_running",) if f is sp_play else ()):
+            st = [x for x in walk_local(f.node) if isinstance(x, ast.Assign) and src(x.targets[0]) == loc]
+            ok = len(st) == 1 and src(st[0].value).replace('"', "'") == "show_settings['%s'].evaluate(placeholder_args)" % loc
+            chk.ob("FWD-17", "%s: `%s` is the evaluated setting of that name" % (f.qualname, loc), ok, f.where(st[0]) if st else f.where(), construct=f.ident,
+                   text="%s local %s" % (f.name, loc))
+    st = [x for x in walk_local(sp_play.node) if isinstance(x, ast.Assign) and src(x.targets[0]) == "instance_dict[key]"]
+    ok = len(st) == 1 and isinstance(st[0].value, ast.Call) and call_attr(st[0].value) == "replace_or_advance_show"
+    chk.ob("FWD-17", "the show player remembers the instance it was handed under the key", ok, sp_play.where(), construct=sp_play.ident, text="instance remembered")
+    pv = [x for x in walk_local(sp_play.node) if isinstance(x, ast.Assign) and src(x.targets[0]) == "previous_show"]
+    ok = len(pv) == 1 and src(pv[0].value).replace(" ", "") in ("instance_dict.get(key,None)", "instance_dict.get(key)")
+    chk.ob("FWD-17", "the instance to replace is the one remembered under the same key", ok, sp_play.where(), construct=sp_play.ident, text="previous instance")
+
+    # ------------------------------------------------------------ REPL-17
+    cfg = roa.cfg()
+    pn = [n for n, c in cfg.calls_named("play_with_config")]
+    stops = [n.id for n in cfg.nodes if n.kind == "stmt" and (
+        (isinstance(n.ast, ast.Expr) and isinstance(n.ast.value, ast.Call) and src(n.ast.value.func) == "old_instance.stop") or
+        (isinstance(n.ast, ast.Assign) and src(n.ast.targets[0]) == "start_callback" and src(n.ast.value) == "old_instance.stop"))]
+    live = [n for n in cfg.nodes if n.kind == "branch" and n.value is False and src(n.ast) == "old_instance.stopped"]
+    chk.need(pn and stops and live, "REPL-17", "replace_or_advance_show: running old instance, stop sites and the successor's start", roa)
+    w = cfg.path_avoiding(live[0].id, [pn[0].id], stops, ignore_exc=True)
+    chk.ob("REPL-17", "a running show that is replaced is stopped (at once or by the successor's start callback) on every path that starts the successor",
+           w is None, roa.where(pn[0].ast), path=cfg.fmt_path(w, roa.relpath) if w else None, construct=roa.ident, text="replaced show not stopped")
+    for sid in stops:
+        n = cfg.nodes[sid]
+        g = cfg.guards_at(sid)
+        if isinstance(n.ast, ast.Assign):
+            chk.ob("REPL-17", "the old show is left to the successor's start only when the successor starts on the sync grid", g.get("config.sync_ms") is True,
+                   roa.where(n.ast), construct=roa.ident, text="deferred stop guard")
+        else:
+            chk.ob("REPL-17", "without a sync grid the old show is stopped at once", g.get("config.sync_ms") is False, roa.where(n.ast), construct=roa.ident,
+                   text="immediate stop guard")
+
+    # ------------------------------------------------------------ TABLE-17
+    init = repo.func(SP, "ShowPlayer.__init__")
+    chk.analysed(init)
+    tab = [x for x in walk_local(init.node) if isinstance(x, ast.Assign) and src(x.targets[0]) == "self._actions" and isinstance(x.value, ast.Dict)]
+    chk.need(len(tab) == 1, "TABLE-17", "ShowPlayer action table", init)
+    n_a = 0
+    for k, v in zip(tab[0].value.keys, tab[0].value.values):
+        n_a += 1
+        chk.ob("TABLE-17", "action `%s` is carried out by its own method" % const_value(k), src(v) == "self._%s" % const_value(k), init.where(k), detail=src(v),
+               construct=init.ident, text="action table %s" % const_value(k))
+    chk.ob("TABLE-17", "action table entries", n_a >= 8, init.where(), detail=str(n_a), nontrivial=False)
+    for act in ("stop", "pause", "resume", "advance", "step_back", "update"):
+        m = repo.func(SP, "ShowPlayer._" + act)
+        chk.analysed(m)
+        mc = m.cfg()
+        cs = [(n, c) for n, c in mc.calls_named(act) if src(c.func.value) == "instance_dict[key]"]
+        ok = len(cs) == 1
+        if ok:
+            from sa.cfg import canon_set, canon_fact
+            ok = set(canon_set(mc.guards_at(cs[0][0].id))) == {canon_fact("key in instance_dict", True)}
+        chk.ob("TABLE-17", "`%s` calls %s() of the instance remembered under the key, whenever there is one" % (act, act), ok, m.where(), construct=m.ident,
+               text="instance action " + act)
+    sm = repo.func(SP, "ShowPlayer._stop")
+    mc = sm.cfg()
+    dl = [n for n in mc.nodes if n.kind == "stmt" and isinstance(n.ast, ast.Delete) and src(n.ast.targets[0]) == "instance_dict[key]"]
+    sc_ = [n for n, c in mc.calls_named("stop")]
+    chk.ob("TABLE-17", "a stopped instance is forgotten (after it was stopped)", len(dl) == 1 and len(sc_) == 1 and mc.dominates(sc_[0].id, dl[0].id), sm.where(),
+           construct=sm.ident, text="stop forgets instance")
+
+
 def _token_cache(chk, repo):
     """CACHE-17: the per-token step cache is keyed by the whole token mapping.  The cached steps depend on token *names and values*
     (both are substituted); a key built from part of the mapping (`.values()`, `.keys()`, a single entry, `len`) makes two different
@@ -557,6 +689,15 @@ def battery():
         M("twin: step cache keyed by the sorted items", SH, "            token_hash = hash(str(show_tokens))", "            token_hash = hash(tuple(sorted(show_tokens.items())))", None),
         M("a show still waiting for its sync point is advanced", "mpf/core/show_controller.py", "            elif old_instance.current_step_index is not None and \\\n                    old_instance.current_step_index + 2 == start_step:", "            elif old_instance.next_step_index + 1 == start_step:", "SYNC-17"),
         M("update() drops falsy values", SH, "updated_values = {k: v for k, v in kwargs.items() if v is not None}", "updated_values = {k: v for k, v in kwargs.items() if v}", "UPD-17"),
+        M("speed and loops swapped on the way into the show config", SH, "            self.name, priority, speed, loops, sync_ms, manual_advance, show_tokens, events_when_played,", "            self.name, priority, loops, speed, sync_ms, manual_advance, show_tokens, events_when_played,", "FWD-17"),
+        M("start and stop callbacks swapped", SH, "return self.play_with_config(show_config, start_time, start_running, start_callback, callback, start_step)", "return self.play_with_config(show_config, start_time, start_running, callback, start_callback, start_step)", "FWD-17"),
+        M("looped / paused event lists swapped in the record", "mpf/core/show_controller.py", "show_tokens, events_when_played, events_when_stopped, events_when_looped,\n                          events_when_paused,", "show_tokens, events_when_played, events_when_stopped, events_when_paused,\n                          events_when_looped,", "FWD-17"),
+        M("show player passes start_time as start_step", "mpf/config_players/show_player.py", "                                                                                  start_step, start_time,\n", "                                                                                  start_time, start_step,\n", "FWD-17"),
+        M("config-played show ignores its start step", "mpf/core/show_controller.py", "                                 start_step=config['start_step'], loops=config['loops'],", "                                 loops=config['loops'],", "FWD-17"),
+        M("replaced show keeps running when the successor is not synced", "mpf/core/show_controller.py", "            else:\n                # stop the current show instantly\n                old_instance.stop()", "            else:\n                # stop the current show instantly\n                pass", "REPL-17"),
+        M("pause action resumes", "mpf/config_players/show_player.py", "            instance_dict[key].pause()", "            instance_dict[key].resume()", "TABLE-17"),
+        M("stop action keeps the stopped instance", "mpf/config_players/show_player.py", "            instance_dict[key].stop()\n            del instance_dict[key]", "            instance_dict[key].stop()", "TABLE-17"),
+        M("advance mapped to step_back", "mpf/config_players/show_player.py", "            'advance': self._advance,", "            'advance': self._step_back,", "TABLE-17"),
     ]
 
 
